@@ -40,6 +40,21 @@ class SchedReader(AudioReader):
         return data
 
 
+def _faulty_close(reader):
+    """make reader.close() raise once (an I/O error reported while closing the device)."""
+    orig = reader._audio_source.close
+    state = {"raised": False}
+
+    def close():
+        if not state["raised"]:
+            state["raised"] = True
+            reader.vf_close_fault_raised = True
+            raise OSError("injected close fault")
+        return orig()
+
+    reader._audio_source.close = close
+
+
 class OuterProxy:
     """Sits between the tokenizer and the reader it was given (e.g. the
     StreamSaverWorker) and logs what the tokenizer actually saw."""
